@@ -1153,7 +1153,36 @@ func scripted() []History {
 		hs = append(hs, h)
 	}
 	hs = append(hs, scriptedErrorTexts())
+	hs = append(hs, scriptedExportOfUnsafeChain())
 	return hs
+}
+
+// scriptedExportOfUnsafeChain: a discovery chain that contains TWO resolvers, each unfit for peer export
+// for a different reason (a cross-datacenter failover target on web, a cross-datacenter redirect on db),
+// both legal while web is not exported; then web is exported.  validateChainIsPeerExportSafe ranges over
+// the chain's resolvers (a map) and returns the first complaint.
+func scriptedExportOfUnsafeChain() History {
+	h := History{Profile: "scripted-export-unsafe-chain"}
+	idx := uint64(0)
+	ce := func(e structs.ConfigEntry) {
+		if err := e.Normalize(); err != nil {
+			panic(err)
+		}
+		if err := e.Validate(); err != nil {
+			panic(err)
+		}
+		idx++
+		h.Entries = append(h.Entries, scriptEntry(idx, "config-entry:upsert:"+e.GetKind(), structs.ConfigEntryRequestType,
+			&structs.ConfigEntryRequest{Datacenter: "dc1", Op: structs.ConfigEntryUpsert, Entry: e}))
+	}
+	ce(&structs.ServiceResolverConfigEntry{Kind: structs.ServiceResolver, Name: "db", Redirect: &structs.ServiceResolverRedirect{Datacenter: "dc2"}})
+	ce(&structs.ServiceResolverConfigEntry{Kind: structs.ServiceResolver, Name: "web", Failover: map[string]structs.ServiceResolverFailover{
+		"*": {Targets: []structs.ServiceResolverFailoverTarget{{Service: "db"}, {Datacenter: "dc3"}}}}})
+	for i := 0; i < 8; i++ {
+		ce(&structs.ExportedServicesConfigEntry{Name: "default", Services: []structs.ExportedService{
+			{Name: "web", Consumers: []structs.ServiceConsumer{{Peer: "peer-a"}}}}})
+	}
+	return h
 }
 
 // scriptedErrorTexts: rejected commands whose error text names "the first" offending item met while
